@@ -2,8 +2,10 @@
    linear extraction over any tame stream, from ANY reader state (arbitrary footer: offsets,
    sizes, eof positions chosen by an attacker, duplicate names, empty offset lists), any name,
    any buffer size: a value or an error, never a Crash site, never out of fuel.  The skip loop
-   of `read` runs at most (number of offsets + 1) times; every iteration of the linear
-   extraction loop consumes at least one byte of the stream. *)
+   of `read` runs at most (number of offsets + 1) times; between two skips it steps over at
+   most `remaining` empty content blocks (each consumes bytes of the stream: zf > M always
+   suffices); every iteration of the linear extraction loop consumes at least one byte of the
+   stream. *)
 From MLA Require Import Base Stream Blocks Reader Total.
 From Coq Require Import ZifyBool ZifyNat ZifyN.
 Open Scope N_scope.
@@ -24,7 +26,9 @@ Section ReaderTotal.
   Notation get_file := (get_file FNMAX T_START T_CONTENT T_EOA T_EOF S).
   Notation bread := (bread FNMAX T_START T_CONTENT T_EOA T_EOF S).
   Notation bread_ready := (bread_ready FNMAX T_START T_CONTENT T_EOA T_EOF S).
+  Notation next_block := (next_block FNMAX T_START T_CONTENT T_EOA T_EOF S).
   Notation lx_loop := (lx_loop FNMAX T_START T_CONTENT T_EOA T_EOF S).
+  Notation remaining := (remaining S pos M).
   Notation linear_extract := (linear_extract FNMAX T_START T_CONTENT T_EOA T_EOF S).
 
   Let pbt := parse_block_tame S I pos M HT FNMAX T_START T_CONTENT T_EOA T_EOF.
@@ -83,23 +87,47 @@ Section ReaderTotal.
     - destruct H1 as [Hs1 He]. cbn [bset b_src b_offs b_id]. fin.
   Qed.
 
-  (* the skip loop: with 2 <= fuel and |offsets| < fuel + current_offset it never runs out
-     (each skip increments current_offset, which must stay below |offsets|) *)
-  Lemma bread_ready_tame fuel : forall b n, I (b_src b) ->
-    (2 <= fuel)%nat -> (length (b_offs b) < fuel + b_cur b)%nat ->
-    bread_post b n (bread_ready fuel b n).
+  (* stepping over empty content blocks: every block parsed consumes at least one byte of
+     what remains of the stream, so with remaining < zf the fuel never runs out; the result
+     is as tame as a single parse_block *)
+  Lemma next_block_tame zf : forall id s, I s -> (N.to_nat (remaining s) < zf)%nat ->
+    match next_block zf id s with
+    | (s', Ok _) => I s' /\ pos s + 1 <= pos s' /\ pos s' <= M
+    | (s', Err e) => I s' /\ e <> EFuel
+    | (_, Crash _) => False
+    end.
   Proof.
-    induction fuel as [|fuel IH]; intros b n Hb Hf Hlen; [lia|].
+    induction zf as [|zf IH]; intros id s Hs Hz; [lia|].
+    cbn [Reader.next_block].
+    pose proof (pbt s Hs) as H1.
+    pose proof (parse_block_progress S I pos M HT FNMAX T_START T_CONTENT T_EOA T_EOF s Hs) as H2.
+    destruct (parse_block s) as [s1 [pb|e|c]]; [|exact H1|exact H1].
+    destruct pb as [i nm|i l|i h|]; try exact H1.
+    destruct ((i =? id) && (l =? 0)); [|exact H1].
+    destruct H1 as (Hs1 & Hp1 & _).
+    specialize (IH id s1 Hs1 ltac:(lia)).
+    destruct (next_block zf id s1) as [s2 [pb|e|c]]; [|exact IH|exact IH].
+    destruct IH as (Hs2 & Hp2 & HM2). repeat split; auto; lia.
+  Qed.
+
+  (* the skip loop: with 2 <= fuel and |offsets| < fuel + current_offset it never runs out
+     (each skip increments current_offset, which must stay below |offsets|); a skip may seek
+     backwards, so the bound on empty blocks is per run: M < zf *)
+  Lemma bread_ready_tame fuel zf : forall b n, I (b_src b) ->
+    (2 <= fuel)%nat -> (length (b_offs b) < fuel + b_cur b)%nat -> (N.to_nat M < zf)%nat ->
+    bread_post b n (bread_ready fuel zf b n).
+  Proof.
+    induction fuel as [|fuel IH]; intros b n Hb Hf Hlen Hzf; [lia|].
     cbn [Reader.bread_ready].
-    pose proof (pbt (b_src b) Hb) as H1.
-    destruct (parse_block (b_src b)) as [s1 [pb|e|c]]; [| |contradiction].
+    pose proof (next_block_tame zf (b_id b) (b_src b) Hb ltac:(unfold remaining; lia)) as H1.
+    destruct (next_block zf (b_id b) (b_src b)) as [s1 [pb|e|c]]; [| |contradiction].
     2:{ destruct H1 as [Hs1 He]. unfold bread_post. cbn [bset b_src b_offs b_id].
         fin. }
     destruct H1 as [Hs1 _].
     (* the skip branch *)
     assert (Hskip : bread_post b n
       (match bmove S (bset S b s1 BReady) with
-       | (b2, Ok _) => bread_ready fuel b2 n
+       | (b2, Ok _) => bread_ready fuel zf b2 n
        | (b2, Err e) => (b2, Err e)
        | (b2, Crash c) => (b2, Crash c)
        end)).
@@ -112,9 +140,9 @@ Section ReaderTotal.
             by (apply nth_error_Some; rewrite En; discriminate).
           specialize (IH (mkB s2 BReady (b_id b) (Datatypes.S (b_cur b)) (b_offs b)) n).
           cbn [b_src b_offs b_cur b_id] in IH.
-          specialize (IH Hs2 ltac:(lia) ltac:(lia)).
+          specialize (IH Hs2 ltac:(lia) ltac:(lia) Hzf).
           unfold bread_post in *.
-          destruct (bread_ready fuel (mkB s2 BReady (b_id b) (Datatypes.S (b_cur b)) (b_offs b)) n) as [b' x].
+          destruct (bread_ready fuel zf (mkB s2 BReady (b_id b) (Datatypes.S (b_cur b)) (b_offs b)) n) as [b' x].
           cbn [b_offs b_id] in IH. exact IH.
         + destruct H2 as [Hs2 He]. unfold bread_post. cbn [b_src b_offs b_id].
           fin.
@@ -137,18 +165,17 @@ Section ReaderTotal.
 
   (* C08 item 3: Read::read of a file reader, from any state with a non-empty offset list
      (get_file refuses an empty one; `read` never changes the list) *)
-  Theorem bread_tame b n : I (b_src b) -> b_offs b <> [] -> bread_post b n (bread b n).
+  Theorem bread_tame zf b n : I (b_src b) -> b_offs b <> [] -> (N.to_nat M < zf)%nat ->
+    bread_post b n (bread zf b n).
   Proof.
-    intros Hb Hne. unfold Reader.bread. destruct (b_mode b) as [|rem|].
+    intros Hb Hne Hzf. unfold Reader.bread. destruct (b_mode b) as [|rem|].
     - assert (0 < length (b_offs b))%nat by (destruct (b_offs b); [congruence|cbn; lia]).
-      apply bread_ready_tame; [exact Hb|lia|lia].
+      apply bread_ready_tame; [exact Hb|lia|lia|exact Hzf].
     - apply bread_data_tame; [exact Hb|reflexivity|reflexivity].
     - unfold bread_post. repeat split; auto. intros d E; injection E as <-. rewrite len_nil. lia.
   Qed.
 
   (* ---------- linear extraction ---------- *)
-
-  Notation remaining := (remaining S pos M).
 
   Lemma copy_take_tame fuel : forall s l acc, I s -> (N.to_nat (remaining s) < fuel)%nat ->
     match copy_take S fuel s l acc with
